@@ -160,6 +160,34 @@ def run_bc(code, solve_for, l, R, rhob):
     raise last
 
 
+_BC_CACHE = {}
+
+
+def rp_bc(md):
+    """public-API replay for the boundary-vector obligations: the real radial_solver on a homogeneous solid sphere, solve_for=(tidal, loading), with and without non-dimensionalisation:
+    the Love numbers must agree between the two runs (unit-scaling symmetry) and satisfy k_load = k_tidal - h_tidal (what the boundary vectors are for)."""
+    import subprocess, tempfile, json as _json
+    if 'r' not in _BC_CACHE:
+        outs = []
+        for nd in (True, False):
+            cfg = {'layers': [['solid', True, False]], 'solve_for': ['tidal', 'loading'], 'nondimensionalize': nd, 'slices_per_layer': 60}
+            with tempfile.TemporaryDirectory(prefix='verif_c03_') as td:
+                e_ = dict(os.environ)
+                e_['PYTHONPATH'] = REPO
+                p_ = subprocess.run([replay.VENV_PY, os.path.join(solve.VERIF, 'replay', 'c06_replay.py')], input=_json.dumps(cfg), capture_output=True, text=True, cwd=td, env=e_, timeout=900)
+            outs.append(_json.loads(p_.stdout.split('@@RESULT@@')[-1]) if '@@RESULT@@' in p_.stdout else {'crashed': True, 'stderr': p_.stderr[-300:]})
+        _BC_CACHE['r'] = outs
+    a, b = _BC_CACHE['r']
+    if a.get('crashed') or b.get('crashed') or not (a.get('success') and b.get('success')):
+        return True, 'real radial_solver failed on the replay configuration: %r / %r' % ({k: a.get(k) for k in ('success', 'message', 'exception')}, {k: b.get(k) for k in ('success', 'message', 'exception')})
+    cx = lambda v: complex(v[0], v[1])
+    la, lb = [[cx(v) for v in row] for row in a['love']], [[cx(v) for v in row] for row in b['love']]
+    scale_mismatch = max(abs(x - y) / (abs(x) + abs(y) + 1e-300) for ra, rb in zip(la, lb) for x, y in zip(ra, rb))
+    recip = abs(la[1][0] - (la[0][0] - la[0][1])) / (abs(la[0][0]) + abs(la[0][1]))
+    return scale_mismatch > 1e-4 or recip > 1e-4, ('real radial_solver, homogeneous solid sphere, solve_for=(tidal, loading): Love numbers with nondimensionalize=True %r vs False %r (relative mismatch %.2e); '
+                                                   'k_load - (k_tidal - h_tidal) relative %.2e' % (a['love'], b['love'], scale_mismatch, recip))
+
+
 def job_bc_and_love(l):
     pi, G, v, pos = sym_env()
     fns = load_nd(pi, G)
@@ -181,7 +209,7 @@ def job_bc_and_love(l):
                     # scaling: y2 ~ S[1], y4 ~ S[3], y6 ~ S[5]
                     conds.append(eq_goal(Q.of(x), S[(1, 3, 5)[j]] * Q.of(bn[3 * t + j])))
         res.append(discharge(Obligation('l=%d solve_for=%r: boundary vectors are (y2,y4,y6) = tidal (0,0,(2l+1)/R) / loading (-(2l+1)rho_bulk/3,0,(2l+1)/R) / free (0,0,0) per slot, and commute with the unit scaling' % (l, solve_for),
-                                        z3.And(*conds), pos, replay=lambda md, sf=solve_for: (True, 'boundary vector construction wrong for solve_for=%r' % (sf,)), key='bc:%r' % (solve_for,))))
+                                        z3.And(*conds), pos, replay=rp_bc, key='bc:%r' % (solve_for,))))
     # Love extraction commutes with the scaling
     love, _ = loader.load_pyx('TidalPy/RadialSolver/love.pyx', ['find_love_cf'], {})
     y = [Q.sym('yy%d' % i) for i in range(6)]
